@@ -132,6 +132,84 @@ theorem C04_recipient_factory {cfg : Cfg} {env : Env} {r : Response} {o : Report
   obtain ⟨rs, hacc⟩ := visible_accepted_factory h
   exact recipient_of_accepted hacc hconv
 
+/-! ### the third entry point, `response_factory(...)` + `verify()` (Model/SpFactory.lean `processRespFactory`) -/
+
+theorem visible_accepted_respfactory {cfg : Cfg} {env : Env} {r : Response} {o : Reported}
+    (h : processRespFactory cfg env r = .identity o) :
+    ∃ rs, ∀ a ∈ visible r, ∃ v s s', checkAssertion cfg env rs v s a = .ok s' := by
+  obtain ⟨p, _, hv, _⟩ := processRespFactory_identity_inv h
+  exact ⟨cfg.wantAssert, verify_visible_accepted hv⟩
+
+/-- Audience, for `response_factory`. -/
+theorem C04_audience_respfactory {cfg : Cfg} {env : Env} {r : Response} {o : Reported}
+    (h : processRespFactory cfg env r = .identity o) :
+    ∀ a ∈ visible r, ∀ c, a.conditions = some c → ∀ rs ∈ c.audiences, rs ≠ [] → ∃ x ∈ rs, pyStrip x = cfg.entityId := by
+  obtain ⟨rs, hacc⟩ := visible_accepted_respfactory h
+  exact audience_of_accepted hacc
+
+/-- Destination, for `response_factory`. -/
+theorem C04_destination_respfactory {cfg : Cfg} {env : Env} {r : Response} {o : Reported}
+    (h : processRespFactory cfg env r = .identity o) (hasync : env.asynchop = true)
+    (d : String) (hd : r.destination = some d) (hne : d ≠ "") : d ∈ cfg.returnAddrs := by
+  obtain ⟨p, _, hv, _⟩ := processRespFactory_identity_inv h
+  exact verify_destination hv hasync d hd hne
+
+/-- Recipient, for `response_factory`. -/
+theorem C04_recipient_respfactory {cfg : Cfg} {env : Env} {r : Response} {o : Reported}
+    (h : processRespFactory cfg env r = .identity o) (hconv : env.convInfo = true) :
+    ∀ a ∈ visible r, ∀ s, a.subject = some s → ∀ sc ∈ s.confs, bearerUsable sc = true →
+      ∃ d rcp, sc.data = some d ∧ d.recipient = some rcp ∧ (env.convEntityId = some rcp ∨ rcp ∈ cfg.returnAddrs) := by
+  obtain ⟨rs, hacc⟩ := visible_accepted_respfactory h
+  exact recipient_of_accepted hacc hconv
+
+/-! ### extension conditions (`condition_ok`, the `<saml:Condition xsi:type=…>` loop)
+
+An assertion is honoured only if every extension condition it carries is one the receiver was told about: its
+`xsi:type` is present and is a key of the `extension_schema` handed to the `AuthnResponse`.  `Saml2Client` and
+`authn_response()` hand none (`Sp.noExt`), so through them ANY extension condition refuses the assertion. -/
+
+theorem extension_of_accepted {cfg : Cfg} {env : Env} {r : Response} {rs : Bool}
+    (hacc : ∀ a ∈ visible r, ∃ v s s', checkAssertion cfg env rs v s a = .ok s') :
+    ∀ a ∈ visible r, ∀ c, a.conditions = some c → ∀ t ∈ c.extra, ∃ x, t = some x ∧ x ∈ cfg.extSchemas := by
+  intro a ha c hc t ht
+  obtain ⟨v, s, s', hs⟩ := hacc a ha
+  obtain ⟨_, st1, st2, _, e2, _, _⟩ := checkAssertion_inv hs
+  have hk := conditionOk_extra e2 c hc t ht
+  cases t with
+  | none => simp [extKnown] at hk
+  | some x => exact ⟨x, rfl, List.contains_iff_mem.mp (by simpa [extKnown] using hk)⟩
+
+/-- Identity ⇒ every extension condition of every visible assertion is typed with a schema the receiver was given
+    (any number of conditions, any entry point's schema set). -/
+theorem C04_extension_conditions {cfg : Cfg} {env : Env} {r : Response} {o : Reported}
+    (h : process cfg env r = .identity o) :
+    ∀ a ∈ visible r, ∀ c, a.conditions = some c → ∀ t ∈ c.extra, ∃ x, t = some x ∧ x ∈ cfg.extSchemas := by
+  obtain ⟨rs, hacc⟩ := visible_accepted h
+  exact extension_of_accepted hacc
+
+theorem C04_extension_conditions_respfactory {cfg : Cfg} {env : Env} {r : Response} {o : Reported}
+    (h : processRespFactory cfg env r = .identity o) :
+    ∀ a ∈ visible r, ∀ c, a.conditions = some c → ∀ t ∈ c.extra, ∃ x, t = some x ∧ x ∈ cfg.extSchemas := by
+  obtain ⟨rs, hacc⟩ := visible_accepted_respfactory h
+  exact extension_of_accepted hacc
+
+/-- Through `Saml2Client.parse_authn_request_response` and through `authn_response()` (no schema set handed on) an
+    assertion that carries any extension condition never yields identity. -/
+theorem C04_no_extension_conditions_client {cfg : Cfg} {env : Env} {r : Response} {o : Reported}
+    (h : process (noExt cfg) env r = .identity o ∨ processFactory (noExt cfg) env r = .identity o) :
+    ∀ a ∈ visible r, ∀ c, a.conditions = some c → c.extra = [] := by
+  intro a ha c hc
+  have hall : ∀ t ∈ c.extra, ∃ x, t = some x ∧ x ∈ (noExt cfg).extSchemas := by
+    rcases h with h | h
+    · exact C04_extension_conditions h a ha c hc
+    · obtain ⟨rs, hacc⟩ := visible_accepted_factory h
+      exact extension_of_accepted hacc a ha c hc
+  cases hx : c.extra with
+  | nil => rfl
+  | cons t rest =>
+    obtain ⟨x, _, hmem⟩ := hall t (by rw [hx]; exact List.mem_cons_self)
+    simp [noExt] at hmem
+
 /-- Matching is equality after `str.strip`: an Audience that differs from the entityID after
     stripping never satisfies a restriction (no prefix / suffix / case leniency). -/
 theorem C04_exact (me : String) (r : List String) (h : ∀ x ∈ r, pyStrip x ≠ me) :
@@ -205,5 +283,20 @@ example : (processFactory okCfg okEnv { okResp with sig := .absent }).isIdentity
 example : processFactory okCfg okEnv { okResp with assertions := [{ okAssertion with
     conditions := some { nooa := some 200, audiences := [["me"], ["other"]] } }] } = .rejected .audience := by decide
 example : processFactory okCfg okEnv { okResp with destination := some "https://evil" } = .noIdentity := by decide
+
+/-! Non-vacuity for extension conditions and `response_factory`: an understood condition is accepted through
+    `response_factory` (also next to a foreign audience test that still refuses), the same message is refused by the
+    client and by `authn_response()`, and an unknown / untyped condition is refused everywhere. -/
+private def extAssertion (extra : List (Option String)) (auds : List (List String)) : Assertion :=
+  { okAssertion with conditions := some { nooa := some 200, audiences := auds, extra := extra } }
+private def extCfg : Cfg := { okCfg with extSchemas := ["urn:ext"] }
+
+example : (processRespFactory extCfg okEnv { okResp with sig := .absent, assertions := [extAssertion [some "urn:ext", some "urn:ext"] [["me"]]] }).isIdentity = true := by decide
+example : processRespFactory extCfg okEnv { okResp with assertions := [extAssertion [some "urn:ext"] [["other"]]] } = .rejected .audience := by decide
+example : processRespFactory extCfg okEnv { okResp with assertions := [extAssertion [some "urn:ext", some "urn:extx"] [["me"]]] } = .rejected .unknownCondition := by decide
+example : processRespFactory extCfg okEnv { okResp with assertions := [extAssertion [none] [["me"]]] } = .rejected .unknownCondition := by decide
+example : process (noExt extCfg) okEnv { okResp with assertions := [extAssertion [some "urn:ext"] [["me"]]] } = .rejected .unknownCondition := by decide
+example : processFactory (noExt extCfg) okEnv { okResp with assertions := [extAssertion [some "urn:ext"] [["me"]]] } = .rejected .unknownCondition := by decide
+example : processRespFactory okCfg okEnv { okResp with destination := some "https://evil" } = .noIdentity := by decide
 
 end C04
